@@ -114,8 +114,12 @@ c.param("signum", T.Obj).param("handler", T.Obj).event("signal", "signum", "hand
 c = S.ext("multiprocessing.util.log_to_stderr", cite="util.log_to_stderr(level): logging configuration, not tracked")
 c.param("level", T.Obj, default=NONE).modifies().is_quiet()
 for nm in ("sys.stdin.close", "sys.stdout.close"):
-    c = S.ext(nm, cite="file.close() of stdin/stdout in the tracker: errors are swallowed by the caller and not modelled")
+    c = S.ext(nm, cite="file.close() of stdin/stdout in the tracker: errors are swallowed by the caller and not modelled; the standard streams are opened with "
+              "closefd=False, closing the object leaves descriptors 0 / 1 open")
     c.modifies().is_quiet()
+for nm, no in (("sys.stdin.fileno", 0), ("sys.stdout.fileno", 1)):
+    c = S.ext(nm, cite="file.fileno() of a standard stream: descriptor 0 / 1")
+    c.returns(T.Int).ensures("std", f"result == {no}").modifies().is_quiet()
 
 
 @_impl("File.readline", cite="file.readline(): the next line (arbitrary bytes), b'' at end of file")
@@ -142,6 +146,10 @@ c.ensures("main/ignores-sigint-and-sigterm-before-reading",
           "log_count('signal') == 2 and log_arg('signal', 0, 0) is obj(signal.SIGINT) and log_arg('signal', 1, 0) is obj(signal.SIGTERM) and "
           "log_arg('signal', 0, 1) is obj(signal.SIG_IGN) and log_arg('signal', 1, 1) is obj(signal.SIG_IGN) and "
           "log_before('signal', 'open')", prop="C12")
+# C12 (every tree shape, daemons included): os.pipe() hands out the lowest free numbers, so when the launcher runs with stdin or stdout closed the request pipe
+# *is* descriptor 0 or 1 of the tracker: whatever main() does to its standard streams before reading, the descriptor it was given is still open when it opens it
+c.rely("the-request-pipe-is-open-when-the-tracker-starts", "G.fd_open[fd]", "A-fds")
+c.at_call("builtins.open", "the-request-pipe-is-still-open-when-the-tracker-starts-reading-it", "G.fd_open[fd]", prop="C12")
 c.raises("main/only-a-failing-warning-or-open-escapes", "BaseException")
 c.modifies("G.cleanup_folder", "G.cleanup_file", "G.cleanup_semlock", "G.cleanup_seq", "G.fd_open", "G.sig_blocked")
 c.assumes("A-warn", "A-kernel")   # inside the request loop a raised warning is caught by the loop's error barrier; the sweep (own contract) does not assume A-warn
